@@ -5,7 +5,9 @@ import json, os, re, shutil, subprocess, sys, glob
 src = sys.argv[1] if len(sys.argv) > 1 else "/tmp/seed/out"
 suffix = sys.argv[2] if len(sys.argv) > 2 else ""
 skips = {
-    "": {"C14/m1": "manifests only for exponents beyond the package limits (MaxInt32), outside the property's domain"},
+    "": {"C14/m1": "manifests only for exponents beyond the package limits (MaxInt32), outside the property's domain",
+         "C05/m2": "obsolete: it mutated Cbrt's exactness test (operand copy z0), which the fix 'Cbrt finds exact roots in every rounding mode' replaced; it was detected by C05.R1 while it applied",
+         "C11/m2": "obsolete: it mutated Cbrt's exactness test (operand copy z0), which the fix 'Cbrt finds exact roots in every rounding mode' replaced; it was detected by C05.R1/C11.R2 while it applied"},
     "-r2": {
         "C18/m2": "not confirmed: with the patch 3 stable baseline tests fail in this sandbox (the GDA runner shares one Context between goroutines)",
         "C04/m1": "manifests only for a target exponent of MaxInt32, outside the package limits (out of the property's domain)",
